@@ -74,6 +74,11 @@ def correspondence(ctx):
 
 
 def oracle(ctx, widen=1):
+    # a refused assignment is no assignment: over the legal sets x every name x values of the wrong kind (the replacement path included)
+    cs, rs, bads = H.refused_assignment_sweep(ctx.rng, ctx.scale(160, 1000) * widen)
+    for what, rep in bads[:20]:
+        ctx.violation(what, rep, {"kind": "refused-assignment-changes-set", "name": rep["name"]})
+    ctx.stream("oracle:refused-assignments", cs, min(cs, rs), raised=rs)
     """the rules of the property statement, stated directly on the real class"""
     from diffcalc.hkl.constraints import Constraints
     from diffcalc.util import DiffcalcException
